@@ -139,6 +139,10 @@ Definition binding_ok (W : world) (exps : list expectation) : bool :=
                     | _ => false
                     end) exps.
 
+(* domain of [binding]: the root of every expectation is not a name the builder module owned already *)
+Definition roots_fresh (g0 : gmap) (exps : list expectation) : bool :=
+  forallb (fun e => match assoc (fst (fst e)) g0 with None => true | Some _ => false end) exps.
+
 Theorem binding_ok_sound W exps :
   binding_ok W exps = true ->
   forall root path c, In (root, path, c) exps -> resolve W root path = Some (Some c).
